@@ -19,6 +19,7 @@ Anything else is a violation.  R-LOOP: every loop must be an iterator loop over 
 progress argument that is checked.
 """
 import os
+import json
 import re
 
 from analysis import rule
@@ -29,7 +30,7 @@ from analysis.modset import ModSets
 from analysis.numdom import NumAnalysis, INF, int_range, is_slice_ref
 from analysis.panics import sites as panic_sites
 from analysis.query import call_sites
-from analysis.terms import TermBuilder, show, strip_refs
+from analysis.terms import TermBuilder, show, strip_refs, strip_casts, path_str
 from rules import fdlstate
 
 PID = "C05"
@@ -135,6 +136,7 @@ class Numeric:
         self._sites = set()
         self._ret = {}
         self._ret_stack = set()
+        self._ctx = {}
 
     # ---- integer return summaries (bottom-up, on demand, without hypotheses)
     def ret_of(self, callee):
@@ -302,6 +304,45 @@ class Numeric:
                     else:
                         cur = d[pl]
                         d[pl] = (kind, min(cur[1], lo), max(cur[2], hi))
+
+    def in_context(self, g, b):
+        """numeric obligations of block b of g, decided in the context of g's only call site among the analysed functions: the caller
+        is analysed with g's body folded in at that site (a helper whose precondition is established by its caller).
+        -> True (all discharged / block unreachable there), False, or None (no unique call site)"""
+        import copy
+        from analysis.ir import Fn
+        from analysis.normalize import inline_call
+        sites = []
+        for n in self.order:
+            f = self.P.get(CR, n)
+            if f is None or f.kind == "promoted" or excluded(f):
+                continue
+            for cb, c, callee in self._callees(f):
+                if callee == g.name and c.get("via") == "direct":
+                    sites.append((f, cb))
+        if len(sites) != 1 or sites[0][0].name == g.name:
+            return None
+        f, cb = sites[0]
+        key = (f.name, g.name)
+        if key not in self._ctx:
+            fj = copy.deepcopy(f.j)
+            B0 = len(fj["blocks"])
+            inline_call(fj, cb, g.j, g.name)
+            fe = Fn(f.name, fj, f.crate)
+            used = self.used_hyps.setdefault(f.name, set())
+            try:
+                na = NumAnalysis(fe, self.P, entry_hook=self.hook_for(fe), partition_discr=True, max_disj=48, ret_summary=self.ret_of,
+                                 local_inv=lambda na_, st_, l_, ty_, used=used: self.apply_type_inv(st_, l_, ty_, used))
+            except Exception:
+                na = None
+            self._ctx[key] = (na, B0)
+        na, B0 = self._ctx[key]
+        if na is None:
+            return None
+        if not na.entry.get(B0 + b):
+            return True
+        obs = [o for (bb, tag), o in na.obligations.items() if bb == B0 + b]
+        return bool(obs) and all(o["ok"] for o in obs)
 
     def _closure_contract(self, f, na, b, c, callee, sts):
         spec = None
@@ -550,6 +591,8 @@ def check(ctx):
                 if s["kind"] in ("assert", "extern-index") or (s["kind"] == "extern-unwrap" and obs):
                     if obs and all(o["ok"] for o in obs):
                         how = "N"
+                    elif obs and num.in_context(f, b) is True:
+                        how = "N"  # decided in the context of the function's only call site
                     elif obs:
                         detail = "; ".join(str(o["detail"])[:160] for o in obs if not o["ok"])
                     elif b not in na.entry or not na.entry.get(b):
@@ -579,7 +622,7 @@ def check(ctx):
                 else:
                     detail = "delegated clause %s failed" % nm
             if how is None:
-                h = residual(f, s, detail)
+                h = residual(f, s, detail, P)
                 if h is not None:
                     how = "H:" + h
                     used_h.add(h)
@@ -640,6 +683,52 @@ FINITE_ITERATORS = re.compile(r"^&mut (std::ops::Range(Inclusive)?<\w+>|std::sli
                               r"std::iter::(Enumerate|Skip|Take|Rev|Copied|Cloned)<(std::slice::Iter(Mut)?<.*>|std::ops::Range<\w+>)>)$")
 
 
+_FIN_BASE = re.compile(r"^(std::ops::Range(Inclusive)?<\w+>|std::slice::(Iter|IterMut|Chunks\w*|Windows)<'\w+, .*>|bitvec::slice::Iter\w*<.*>|"
+                       r"std::option::(Iter|IterMut|IntoIter)<.*>|std::array::IntoIter<.*>|std::vec::IntoIter<.*>|std::str::(Chars|Bytes|CharIndices)<.*>)$")
+_FIN_ADAPT1 = ("Enumerate", "Skip", "Take", "Rev", "Copied", "Cloned", "Peekable", "Fuse", "StepBy")
+_FIN_ADAPT_F = ("Filter", "Map", "FilterMap", "TakeWhile", "SkipWhile", "Inspect", "MapWhile")
+
+
+def _generic_args(ty):
+    """top-level generic arguments of `path<...>`"""
+    i = ty.find("<")
+    if i < 0 or not ty.endswith(">"):
+        return ty, []
+    head, body = ty[:i], ty[i + 1:-1]
+    out, depth, cur = [], 0, ""
+    for ch in body:
+        if ch in "<([{":
+            depth += 1
+        elif ch in ">)]}":
+            depth -= 1
+        if ch == "," and depth == 0:
+            out.append(cur.strip())
+            cur = ""
+        else:
+            cur += ch
+    if cur.strip():
+        out.append(cur.strip())
+    return head, out
+
+
+def finite_iterator(ty):
+    """the iterator type is a finite source under adapters that cannot make it infinite (the adapters' closures are functions of the
+    reachable set themselves and are checked as such)"""
+    ty = re.sub(r"^&(mut )?", "", ty.strip())
+    if _FIN_BASE.match(ty) or FINITE_ITERATORS.match("&mut " + ty):
+        return True
+    head, args = _generic_args(ty)
+    short = head.split("::")[-1]
+    if head.startswith("std::iter::") and args:
+        if short in _FIN_ADAPT1 or short in _FIN_ADAPT_F:
+            return finite_iterator(args[0])
+        if short == "Zip" and len(args) == 2:
+            return finite_iterator(args[0]) or finite_iterator(args[1])
+        if short == "Chain" and len(args) == 2:
+            return finite_iterator(args[0]) and finite_iterator(args[1])
+    return False
+
+
 def check_loops(ctx, P, fns, ok17):
     """b.loop: every loop reachable from poll() terminates: `for` over a finite iterator, or a registered progress argument that is checked."""
     n = 0
@@ -654,7 +743,7 @@ def check_loops(ctx, P, fns, ok17):
             it_ty = None
             if "call" in t and "desugar:ForLoop" in (t.get("mac") or []) and (t["call"].get("callee") or "").endswith("::next"):
                 it_ty = t["call"]["argtys"][0]
-            if it_ty is not None and FINITE_ITERATORS.match(it_ty):
+            if it_ty is not None and finite_iterator(it_ty):
                 ctx.ob("b.loop", key, True, "", loc)
                 ctx.sample("%s: `for` over %s terminates (finite iterator)" % (loc, it_ty[5:]))
                 continue
@@ -968,10 +1057,10 @@ def check_counters(ctx, P):
     state (set_offline / a transition), so the counter never exceeds 1 between polls; constructions start it at 0."""
     from analysis.query import stmts, constructions
     n = 0
-    for name in ("fdl::active::FdlActiveStation::do_listen_token::{closure#1}", "fdl::active::FdlActiveStation::handle_telegram"):
-        f = P.get(CR, name)
-        if f is None:
-            ctx.ob("s.support", "I-COLLISION|fn|" + name, False, "function not found")
+    # every function (or closure) of the active station that increments a collision counter, wherever it lives
+    for f in sorted([f for f in P.crate_fns(CR) if f.module == "fdl::active" and f.kind in ("assoc", "fn", "closure")], key=lambda f: f.name):
+        name = f.name
+        if 'collision_count' not in json.dumps(f.j.get("blocks")):
             continue
         tb = TermBuilder(f, P)
         marks = {}
@@ -987,7 +1076,6 @@ def check_counters(ctx, P):
         ninc = sum(1 for v in marks.values() if v == "inc")
         n += ninc
         if not ninc:
-            ctx.ob("s.support", "I-COLLISION|inc-site|" + name, False, "increment of the collision counter not found")
             continue
         ga = GuardAnalysis(f, P, marks=marks, max_disj=64)
         bad = []
@@ -1057,22 +1145,39 @@ RESIDUAL = [
     ("<time::Duration as std::ops::Mul<u32>>::mul", "assert", r"Overflow\(Mul\)", "H-TIME"),
     ("<time::Duration as std::ops::Add>::add", "assert", r"Overflow\(Add\)", "H-TIME"),
     ("<dp::master::DpMaster<'a> as fdl::FdlApplication>::receive_reply", "panic-call", r"unreachable", "I-INFLIGHT"),
-    ("dp::peripheral_set::PeripheralSet::<'a>::get_at_index_mut::{closure#0}::{closure#0}", "extern-unwrap", r"unwrap", "I-PSET"),
-    ("dp::peripheral_set::PeripheralSet::<'a>::get_next_index::{closure#1}", "extern-unwrap", r"unwrap", "I-PSET"),
-    ("fdl::active::FdlActiveStation::do_listen_token::{closure#1}", "assert", r"Overflow\(Add\)", "I-COLLISION"),
-    ("fdl::active::FdlActiveStation::handle_telegram", "assert", r"Overflow\(Add\)", "I-COLLISION"),
+    # I-PSET: `u8::try_from(<slot index>).unwrap()` anywhere in the peripheral set's look-ups (the writer `add` is checked by s.support)
+    ("dp::peripheral_set::PeripheralSet::<'a>::get_at_index_mut", "extern-unwrap", r"unwrap of try_from\(", "I-PSET"),
+    ("dp::peripheral_set::PeripheralSet::<'a>::get_next_index", "extern-unwrap", r"unwrap of try_from\(", "I-PSET"),
     ("fdl::telegram::FrameCountBit::cycle", "panic-call", r"panic", "I-FCB"),
-    # H-APPS: `apps[self.next_application]` and the round-robin increment
-    ("fdl::active::FdlActiveStation::apps_transmit_telegram", "assert", r"BoundsCheck", "H-APPS"),
-    ("fdl::active::FdlActiveStation::do_await_data_response", "assert", r"BoundsCheck", "H-APPS"),
-    ("fdl::active::FdlActiveStation::schedule_next_application", "assert", r"Overflow\(Add\)", "H-APPS"),
 ]
 
+# residual sites identified by WHAT is computed, wherever the code lives: (module, assert kind regex, operand index, operand term regex)
+RESIDUAL_OPERAND = [
+    # I-COLLISION: `*collision_count += 1`
+    ("fdl::active", r"Overflow\(Add\)", 0, r"collision_count", "I-COLLISION"),
+    # H-APPS: `apps[self.next_application]` and the round-robin increment `self.next_application + 1`
+    ("fdl::active", r"BoundsCheck", 1, r"^self\.next_application$", "H-APPS"),
+    ("fdl::active", r"Overflow\(Add\)", 0, r"^self\.next_application$", "H-APPS"),
+]
+_TB = {}
 
-def residual(f, s, detail):
+
+def residual(f, s, detail, P=None):
     for suffix, kind, rx, h in RESIDUAL:
-        if f.name.endswith(suffix) and s["kind"] == kind and (rx is None or re.search(rx, s["what"] + " " + " ".join(s["mac"]) + " " + detail)):
+        if (f.name.endswith(suffix) or (suffix.startswith("dp::peripheral_set::") and f.name.startswith(suffix + "::{closure"))) and s["kind"] == kind and (rx is None or re.search(rx, s["what"] + " " + " ".join(s["mac"]) + " " + detail)):
             return h
+    if s["kind"] == "assert" and P is not None:
+        t = f.blocks[s["b"]].term
+        for mod, krx, oi, orx, h in RESIDUAL_OPERAND:
+            if f.module != mod or not re.search(krx, t.get("kind") or "") or len(t.get("ops") or []) <= oi:
+                continue
+            if f.name not in _TB:
+                _TB[f.name] = TermBuilder(f, P)
+            term = strip_casts(strip_refs(_TB[f.name].joperand(t["ops"][oi])))
+            while term[0] == "deref":
+                term = strip_refs(term[1])
+            if re.search(orx, path_str(term) or show(term)):
+                return h
     return None
 
 
